@@ -30,6 +30,8 @@ def molecule_lists(tier):
             if n == 3 and tier == "quick" and len(set(names)) == 3 and names[0] != "W":
                 continue
             counts_opts = [(1,) * n, (2,) * n] if n > 1 else [(1,), (2,)]
+            if n == 3 and tier == "quick":
+                counts_opts = [(1, 2, 1)]
             if n == 2:
                 counts_opts = [(1, 1), (2, 1), (1, 2)]
             for counts in counts_opts:
